@@ -13,6 +13,7 @@ parameters from the C01 object round trip, which enters as the hypothesis record
 -/
 import Proofs.Lemmas.Ops
 import Proofs.Lemmas.OpsSpec
+import Pywbem.Model.OpsMeth
 
 set_option linter.unusedSimpArgs false
 
@@ -293,6 +294,29 @@ theorem C04_context_tuple (ns ctx : Str) (items : List CItem) (t1 t2 : Option St
   constructor <;>
     simp only [rsltParams, List.foldl, e1, e2, e3, e4, if_true, if_false, Bool.not_true, Bool.not_false, Bool.and_false,
       Bool.false_and, Option.isNone, Bool.and_true, Bool.true_and, pure, Except.pure] <;> rfl
+
+/-! ### InvokeMethod: the request (Model/OpsMeth.lean) -/
+
+open Pywbem.Model.OpsMeth in
+/-- an array parameter always yields exactly one value element, whatever items it holds; a NULL item is
+    written as VALUE.NULL (this is the repaired defect C04-F1: the code raised AttributeError here) -/
+theorem C04_method_array_null_items (C : Codec) (l : List Atom) :
+    (paramValueXml C (.array l)).length = 1 ∧ paramItemXml C .null = E "VALUE.NULL" [] [] := by
+  constructor
+  · cases l with
+    | nil => rfl
+    | cons a rest => simp [paramValueXml]; split <;> rfl
+  · rfl
+
+open Pywbem.Model.OpsMeth in
+/-- the target of a method call carries the connection default namespace when the caller gave none, the
+    caller's namespace otherwise, and never a host -/
+theorem C04_method_target_namespace (dflt : Str) (c : Str) (h : Option Str) (ks : List Key) :
+    localObject dflt (.path (.inst c h none ks)) = .ok (.inst c none (some dflt) ks) ∧
+    (∀ ns, localObject dflt (.path (.inst c h (some ns) ks)) = .ok (.inst c none (some ns) ks)) ∧
+    localObject dflt (.str c) = .ok (.cls c none (some dflt)) ∧
+    (∀ ns, localObject dflt (.path (.cls c h (some ns))) = .ok (.cls c none (some ns))) :=
+  ⟨rfl, fun _ => rfl, rfl, fun _ => rfl⟩
 
 /-! ### non-vacuity -/
 
